@@ -58,3 +58,60 @@ def check_kernels(ctx, rule, names):
         f = fs[0]
         got = ret_tree(prog, f)
         ctx.inst(rule, "kernel/" + nm, got in accepted, "%s: %s" % (f.name, meaning), got if got not in accepted else "ok", f.loc(f.raw["span"]))
+
+
+# ------------------------------------------------------------------------------------------------------------------
+# Leaf helpers (flag words, balance predicates, e-mode predicates, loss socialisation): complete path tables
+# "conditions => return value | stores", overflow (`?` on checked_*) branches left out.
+
+def leaf_sig(prog, f):
+    sig = []
+    for cs, r, st in effect_paths(prog, f, inline=1):
+        if r and r.startswith("from_residual("):
+            continue
+        cs = [c for c in cs if not c.startswith("discr(checked_")]
+        sig.append("%s => %s | %s" % (" & ".join(cs) or "always", r, ", ".join("%s := %s" % kv for kv in sorted(st.items())) or "-"))
+    return sorted(set(sig))
+
+
+ASV = "checked_div(sub(checked_mul(p1.asset_share_value,p1.total_asset_shares),p2),p1.total_asset_shares)"
+TOT = "checked_mul(p1.asset_share_value,p1.total_asset_shares)"
+LEAVES = {
+    "account.get_flag": ({"name": "get_flag", "key_re": r"marginfi_account::\{impl#\d+\}::get_flag$"}, [["always => ne(0,bitand(p1.account_flags,p2)) | -"], ["always => eq(bitand(p1.account_flags,p2),p2) | -"]],
+                         "an account flag is set iff its bit is set in account_flags"),
+    "account.set_flag": ({"name": "set_flag", "key_re": r"marginfi_account::\{impl#\d+\}::set_flag$"}, [["not(p3) => const | p1.account_flags := bitor(p1.account_flags,p2)", "p3 => const | p1.account_flags := bitor(p1.account_flags,p2)"],
+                                                                                                      ["always => const | p1.account_flags := bitor(p1.account_flags,p2)"]], "set_flag ORs the bit in, leaving the others"),
+    "account.unset_flag": ({"name": "unset_flag", "key_re": r"marginfi_account::\{impl#\d+\}::unset_flag$"}, [["not(p3) => const | p1.account_flags := bitand(not(p2),p1.account_flags)", "p3 => const | p1.account_flags := bitand(not(p2),p1.account_flags)"],
+                                                                                                          ["always => const | p1.account_flags := bitand(not(p2),p1.account_flags)"]], "unset_flag clears exactly that bit"),
+    "bank.get_flag": ({"name": "get_flag", "key_re": r"state::bank::\{impl#\d+\}::get_flag$"}, [["always => eq(bitand(p1.flags,p2),p2) | -"], ["always => ne(0,bitand(p1.flags,p2)) | -"]], "a bank flag is set iff its bit(s) are set in flags"),
+    "bank.update_flag": ({"name": "update_flag", "key_re": r"state::bank::\{impl#\d+\}::update_flag$"}, [["not(p2) & verify_group_flags(p3) => const | p1.flags := bitand(not(p3),p1.flags)", "p2 & verify_group_flags(p3) => const | p1.flags := bitor(p1.flags,p3)"]],
+                         "update_flag(true) ORs the group flag in, update_flag(false) clears it; any other flag value panics"),
+    "bank.socialize_loss": ({"name": "socialize_loss", "key_re": r"state::bank::\{impl#\d+\}::socialize_loss$"},
+                            [["eq(0,%s) & lt(p2,%s) => Result::Ok{1} | p1.asset_share_value := %s" % (ASV, TOT, ASV), "le(%s,p2) => Result::Ok{1} | p1.asset_share_value := 0" % TOT,
+                              "lt(p2,%s) & ne(0,%s) => Result::Ok{0} | p1.asset_share_value := %s" % (TOT, ASV, ASV)]],
+                            "loss >= total deposits: share value 0 and kill; otherwise share value = (total - loss) / shares, kill iff that is zero"),
+    "group.program_fees_enabled": ({"name": "program_fees_enabled", "crate": "marginfi"}, [["always => ne(0,bitand(1,p1.group_flags)) | -"], ["always => eq(bitand(1,p1.group_flags),1) | -"]], "PROGRAM_FEES_ENABLED (bit 0) of group_flags"),
+    "balance.is_empty": ({"name": "is_empty", "self_adt": "Balance"}, [["discr(p2) == 0 => lt(p1.asset_shares,%s) | -" % ONE, "discr(p2) == 1 => lt(p1.liability_shares,%s) | -" % ONE]], "a side is empty iff its shares < EMPTY_BALANCE_THRESHOLD (1)"),
+    "balance.get_side": ({"name": "get_side", "self_adt": "Balance"}, [["le(%s,p1.asset_shares) & lt(p1.liability_shares,%s) => Option::Some{BalanceSide::Assets{}} | -" % (ONE, ONE),
+                                                                       "le(%s,p1.liability_shares) & lt(p1.asset_shares,%s) => Option::Some{BalanceSide::Liabilities{}} | -" % (ONE, ONE),
+                                                                       "lt(p1.asset_shares,%s) & lt(p1.liability_shares,%s) => Option::None{} | -" % (ONE, ONE)]], "the side of a balance; both non-empty is refused (assert)"),
+    "balance.is_active": ({"name": "is_active", "self_adt": "Balance"}, [["always => ne(0,p1.active) | -"]], "active != 0"),
+    "balance.set_active": ({"name": "set_active", "self_adt": "Balance"}, [["always => const | p1.active := p2"]], "active := value"),
+    "emode.entry_is_empty": ({"name": "is_empty", "self_adt": "EmodeEntry"}, [["always => eq(0,p1.collateral_bank_emode_tag) | -"]], "an entry is empty iff its tag is 0"),
+    "emode.has_entries": ({"name": "has_entries", "self_adt": "EmodeConfig"}, [["always => any(iter(p1.entries),closure{not(is_empty(a2))}) | -"]], "a config has entries iff some entry is non-empty"),
+    "emode.tag_equals": ({"name": "tag_equals", "self_adt": "EmodeEntry"}, [["always => eq(p1.collateral_bank_emode_tag,p2) | -"]], "entry tag == wanted tag"),
+    "emode.find_with_tag": ({"name": "find_with_tag", "self_adt": "EmodeConfig"}, [["eq(0,p2) => Option::None{} | -", "ne(0,p2) => find(iter(p1.entries),closure{tag_equals(a2,p2)}) | -"]], "tag 0 matches nothing; otherwise the entry with that tag"),
+}
+
+
+def check_leaves(ctx, rule, names):
+    prog = ctx.prog
+    for nm in names:
+        spec, accepted, meaning = LEAVES[nm]
+        fs = prog.find_fns(spec)
+        if len(fs) != 1:
+            ctx.missing(rule, "leaf helper " + nm)
+            continue
+        f = fs[0]
+        got = leaf_sig(prog, f)
+        ctx.inst(rule, "leaf/" + nm, got in [sorted(a) for a in accepted], "%s: %s" % (f.name, meaning), got if got not in [sorted(a) for a in accepted] else "ok", f.loc(f.raw["span"]))
